@@ -249,6 +249,66 @@ func enumerate(shard, nshards int, yield func(Case)) {
 			}
 		}
 	}
+	// sharing ladders: an acyclic chain of 40 levels in which each level reaches the next one on two routes
+	// (every pair of schema keywords, wrapped in two properties or sitting on the level itself). There
+	// are 2^40 walks from the top to the bottom and 41 schemas: the work has to follow the schemas
+	{
+		routes := []string{"ref", "items", "additionalProperties", "allOf", "anyOf", "oneOf", "not", "properties"}
+		wrap := func(r string, next M) M {
+			switch r {
+			case "items":
+				return M{"type": "array", "items": next}
+			case "additionalProperties":
+				return M{"type": "object", "additionalProperties": next}
+			case "allOf", "anyOf", "oneOf":
+				return M{r: []any{next}}
+			case "not":
+				return M{"not": next}
+			case "properties":
+				return M{"type": "object", "properties": M{"in": next}}
+			}
+			return next
+		}
+		for i, r1 := range routes {
+			for _, r2 := range routes[i:] {
+				for _, direct := range []bool{false, true} {
+					if direct && (r1 == "ref" || r1 == r2 || r1 == "items" && r2 != "ref") {
+						continue // on the level itself two routes need two different keywords (and items a type of its own)
+					}
+					idx++
+					if idx%nshards != shard {
+						continue
+					}
+					const depth = 40
+					schemas := M{}
+					for l := 0; l < depth; l++ {
+						next := func() M { return M{"$ref": fmt.Sprintf("#/components/schemas/L%02d", l+1)} }
+						if direct {
+							// r2 on the level itself, r1 in a property
+							lv := wrap(r2, next())
+							if r2 == "ref" {
+								lv = M{"type": "object"}
+							}
+							props, _ := lv["properties"].(M)
+							if props == nil {
+								props = M{}
+							}
+							props["p"] = wrap(r1, next())
+							lv["properties"] = props
+							schemas[fmt.Sprintf("L%02d", l)] = lv
+							continue
+						}
+						schemas[fmt.Sprintf("L%02d", l)] = M{"type": "object", "properties": M{"p": wrap(r1, next()), "q": wrap(r2, next())}}
+					}
+					schemas[fmt.Sprintf("L%02d", depth)] = M{"type": "string"}
+					d := M{"openapi": "3.0.3", "info": M{"title": "t", "version": "1"}, "components": M{"schemas": schemas},
+						"paths": M{"/p": M{"get": M{"responses": M{"200": M{"description": "d", "content": M{"application/json": M{"schema": M{"$ref": "#/components/schemas/L00"}}}}}}}}}
+					b, _ := json.Marshal(d)
+					yield(Case{Files: map[string][]byte{"/w/root.json": b}, Root: "/w/root.json", Entry: []string{"data", "datawithpath"}[idx%2]})
+				}
+			}
+		}
+	}
 	// every graph of callback path-item references over three paths of one document: the callback of
 	// each path names one of the paths (or none), 4^3 graphs, in two spellings of the path order
 	for g := 0; g < 64; g++ {
